@@ -116,27 +116,30 @@ type %[1]sInnerT struct {
 %[3]s}
 type %[1]sRows struct {
 	Rows [][]struct {
-		A %[1]sA
+		A %[1]sA TAG1
 		B %[1]sA
 	}
 	Cube map[string][][]struct {
 		A %[1]sA
-		B %[1]sA
+		B %[1]sA TAG2
 		C %[1]sA
 	}
 }
 type %[1]sRowsT struct {
 	Rows [][]struct {
-		A %[1]sB
+		A %[1]sB TAG2
 		B %[1]sB
 	}
 	Cube map[string][][]struct {
-		A %[1]sB
+		A %[1]sB TAG1
 		B %[1]sB
-		C %[1]sB
+		C %[1]sB TAG2
 	}
 }
 `, p, sameFields, sameInner)
+	// field tags are part of the identity of an unnamed struct type: the emitted type literals must carry them verbatim
+	tags := []string{"", "`json:\"name\" db:\"name\"`", "`json:\"a,omitempty\"`", "`xml:\"x\"   json:\"y\"`", "`b:\"1\" a:\"\\u00e9\"`", "`free text`", "\"z:\\\"q\\\" a:\\\"b\\\"\""}
+	f.Types = strings.ReplaceAll(strings.ReplaceAll(f.Types, " TAG1", " "+rng.Pick(r, tags)), " TAG2", " "+rng.Pick(r, tags))
 	// the extend function
 	params := []string{"s " + p + "A"}
 	args := []string{"s"}
@@ -244,6 +247,11 @@ type %[1]sOut struct {
 	ptrResult := r.Bool()
 	withSource := r.Chance(35)
 	withErr := r.Chance(30)
+	// every 5th instance pins: a constructor returning (T, error) for a value -> pointer method (and the other shapes)
+	pinned := id%5 == 2
+	if pinned {
+		ptrResult, withErr = false, true
+	}
 	params := ""
 	if withSource {
 		params = "s " + rng.Pick(r, []string{p + "In", "*" + p + "In"})
@@ -260,7 +268,7 @@ type %[1]sOut struct {
 	}
 	sigs := [][2]string{{p + "In", p + "Out"}, {"*" + p + "In", "*" + p + "Out"}, {p + "In", "*" + p + "Out"}, {"*" + p + "In", p + "Out"}}
 	for i, sg := range sigs {
-		if r.Chance(25) {
+		if r.Chance(25) && !pinned {
 			continue
 		}
 		if ptrResult && !strings.HasPrefix(sg[1], "*") && r.Chance(85) {
@@ -631,6 +639,51 @@ func famExtendPkgs(r *rng.R, id int) *famOut {
 	b.WriteString("type " + p + "C interface {\n\tConvert(source " + p + "In) " + p + "Out\n")
 	if r.Bool() {
 		b.WriteString("\tList(source []" + p + "In) []" + p + "Out\n")
+	}
+	b.WriteString("}\n\n")
+	f.add(p+"C", b.String())
+	return f
+}
+
+// famBytes: byte / uint8 and rune / int32 slices (the two spellings are the same basic kinds) at field, element, map value,
+// pointer and top-level positions, plain and named: converted by the ordinary element loop, with no helper package (C02, C18).
+func famBytes(r *rng.R, id int) *famOut {
+	p := fmt.Sprintf("By%d", id)
+	f := &famOut{}
+	pick := func(a, b string) string {
+		if r.Bool() {
+			return a
+		}
+		return b
+	}
+	var in, out strings.Builder
+	fields := []struct{ name, a, b string }{
+		{"Raw", "[]byte", "[]byte"}, {"U8", "[]uint8", pick("[]byte", "[]uint8")}, {"M", "map[string][]byte", pick("map[string][]byte", "map[string][]uint8")},
+		{"LL", "[][]byte", "[][]byte"}, {"Blob", p + "Blob", pick(p+"Blob", p+"BlobT")}, {"P", "*[]byte", pick("*[]byte", "[]byte")},
+		{"Runes", "[]rune", pick("[]rune", "[]int32")}, {"One", "byte", pick("byte", "uint8")}, {"S", "string", "string"},
+	}
+	for _, fd := range fields {
+		if fd.name != "Raw" && r.Chance(25) {
+			continue
+		}
+		in.WriteString("\t" + fd.name + " " + fd.a + "\n")
+		out.WriteString("\t" + fd.name + " " + fd.b + "\n")
+	}
+	f.Types = fmt.Sprintf("type %[1]sBlob []byte\ntype %[1]sBlobT []uint8\ntype %[1]sIn struct {\n%[2]s}\ntype %[1]sOut struct {\n%[3]s}\n", p, in.String(), out.String())
+	var b strings.Builder
+	b.WriteString("// goverter:converter\n")
+	if r.Chance(30) {
+		b.WriteString("// goverter:useZeroValueOnPointerInconsistency\n")
+	}
+	if r.Chance(15) {
+		b.WriteString("// goverter:skipCopySameType\n")
+	}
+	b.WriteString("type " + p + "C interface {\n\tConvert(source " + p + "In) " + p + "Out\n")
+	if r.Chance(60) {
+		b.WriteString("\tBytes(source []byte) " + pick("[]byte", "[]uint8") + "\n")
+	}
+	if r.Chance(40) {
+		b.WriteString("\tNamed(source " + p + "Blob) " + pick(p+"BlobT", "[]byte") + "\n")
 	}
 	b.WriteString("}\n\n")
 	f.add(p+"C", b.String())
